@@ -126,6 +126,36 @@ def _chunk(args):
                     if r is not truth[name]:
                         out["viols"].append(("comparison_depends_on_units", label,
                                              f"({qa}) {name} ({qb}) is {r}; SI values {float(va)!r} vs {float(vb)!r}", rp))
+        elif kind == "temp":
+            _, i, j, sa, sb, pa, pb = case
+            U = w.m.Unit._by_name
+            P = sp.prefixes
+            ua = (P[pa] * U[sa]) if pa else U[sa]
+            ub = (P[pb] * U[sb]) if pb else U[sb]
+            va, vb = TEMPS[i], TEMPS[j]
+            fa = (Decimal(P[pa].base) ** P[pa].exponent) if pa else Decimal(1)
+            fb = (Decimal(P[pb].base) ** P[pb].exponent) if pb else Decimal(1)
+            ma, mb = float(t_from_kelvin(sa, va) / fa), float(t_from_kelvin(sb, vb) / fb)
+            # exact zeros where the scale's zero point is hit
+            qa, qb = ma * ua, mb * ub
+            label = f"temperature: {va} K as {pa or ''}{sa} (.) {vb} K as {pb or ''}{sb}"
+            rp = {"case": list(case)}
+            if abs(va - vb) <= Decimal("1e-4") * max(va, vb, 1):
+                continue
+            truth = {"==": False, "!=": True, "<": va < vb, "<=": va < vb, ">": va > vb, ">=": va > vb}
+            for name, fn in (("==", lambda: qa == qb), ("!=", lambda: qa != qb), ("<", lambda: qa < qb),
+                             ("<=", lambda: qa <= qb), (">", lambda: qa > qb), (">=", lambda: qa >= qb)):
+                out["n"] += 1
+                try:
+                    r = fn()
+                except Exception as e:  # noqa
+                    bump(f"temp {name}:raised {type(e).__name__}")
+                    continue
+                bump(f"temp {name}:{r}")
+                out["nt"].add(("temp", name, i, j, sa, sb, pa, pb))
+                if r is not truth[name]:
+                    out["viols"].append(("comparison_depends_on_units", label,
+                                         f"({qa}) {name} ({qb}) is {r}; in kelvin {va} vs {vb}", rp))
         elif kind == "tie":
             _, n, p, q, k = case
             # k units of p*n against k*ratio units of q*n, ratio = value(p)/value(q) an exact integer
@@ -224,9 +254,52 @@ def _chunk(args):
                 if got is None or abs(got - model) > FLT * abs(model):
                     out["viols"].append(("product_depends_on_units", label,
                                          f"({qa}) {name} ({qb}) = {r}: SI value {float(got)!r}, operands' SI values give {float(model)!r}", rp))
+                    continue
+                # the same value as the library itself exposes it: prefixes expanded, and in
+                # comparisons (a result whose prefix collapses to 0 or 1 would pass the above)
+                try:
+                    un = r.unprefixed()
+                    gu = si(sp, un)
+                    if un.unit.prefix.base != 0 or abs(gu - model) > Decimal("1e-9") * abs(model):
+                        out["viols"].append(("product_depends_on_units", label,
+                                             f"(({qa}) {name} ({qb})).unprefixed() = {un}: SI value {float(gu)!r}, expected {float(model)!r}", rp))
+                    elif model != 0:
+                        twice = r * 2
+                        if (r == twice) or not ((r < twice) == (model > 0)) or not (r == r * 1):
+                            out["viols"].append(("product_depends_on_units", label,
+                                                 f"q = ({qa}) {name} ({qb}) = {r}: q == 2q is {r == twice}, q < 2q is {r < twice}", rp))
+                except Exception as e:  # noqa
+                    out["viols"].append(("operator_raised", label, f"observing ({qa}) {name} ({qb}) = {r} raised {type(e).__name__}: {e}", rp))
     w.restore()
     out["nt"] = len(out["nt"])
     return out
+
+
+PROD_LEFT = [None, "milli", "micro", "pico", "kilo", "tera"]
+PROD_RIGHT = [None, "kibi", "mebi", "gibi", "yobi", "kilo"]
+
+
+def prod_expressions(sp, key, side, thorough):
+    names = POOLS[key][: (3 if thorough else 2)]
+    if key in ("A2", "V3", "iL"):
+        return [(None, n) for n in names]
+    return [(p, n) for n in names for p in (PROD_LEFT if side == 0 else PROD_RIGHT)]
+
+
+# temperatures: comparisons only (the sum of two absolute temperatures is not a physical
+# statement); values in kelvin, chosen so that some re-expressions have magnitude exactly 0
+TEMPS = [Decimal(0), Decimal("273.15"), Decimal("255.3722222222222222"), Decimal(300), Decimal("233.15")]
+TSCALES = ["kelvin", "celsius", "fahrenheit", "Rankine"]
+
+
+def t_from_kelvin(scale, k):
+    if scale == "kelvin":
+        return k
+    if scale == "celsius":
+        return k - Decimal("273.15")
+    if scale == "Rankine":
+        return k * 9 / 5
+    return k * 9 / 5 - Decimal("459.67")
 
 
 def case_list(sp, thorough):
@@ -254,9 +327,16 @@ def case_list(sp, thorough):
                     cases.append(("tie", n, p, q, k))
     keys = list(POOLS)
     pairs = list(itertools.combinations_with_replacement(keys, 2)) if thorough else [("L", "T"), ("M", "L"), ("E", "T"), ("B", "T"), ("F", "L"), ("L", "L"), ("P", "T")]
+    for i in range(len(TEMPS)):
+        for j in range(len(TEMPS)):
+            for sa in TSCALES:
+                for sb in TSCALES:
+                    for pa in (None, "kilo", "milli"):
+                        for pb in (None, "kilo"):
+                            cases.append(("temp", i, j, sa, sb, pa, pb))
     for k1, k2 in pairs:
-        e1 = expressions(sp, k1, thorough)
-        e2 = expressions(sp, k2, thorough)
+        e1 = prod_expressions(sp, k1, 0, thorough)
+        e2 = prod_expressions(sp, k2, 1, thorough)
         for i, j in ((1, 2), (4, 3)):
             for ea in e1:
                 for eb in e2:
